@@ -231,6 +231,8 @@ class Recorder:
                 try:
                     to_send = yield m
                     inp, val = "send", describe(to_send)
+                    if getattr(m, "command", "") == "subscribe" and type(to_send) is int:
+                        val = "token"       # the subscription token (its number depends on who subscribed before)
                 except GeneratorExit as ge:
                     if type(ge) is not GeneratorExit:      # PlanHalt (thrown by the engine), not close()
                         to_throw = ge
